@@ -123,6 +123,33 @@ def ref_split(text: str, delim: str) -> list[str]:
     return out
 
 
+def ref_blocks(text: str, kind: str) -> list[str]:
+    """Groups of `kind` in document order that are reachable from the top through groups of that kind only (groups of
+    other kinds and quoted strings are opaque). Independent of tranp: one scan with an explicit stack."""
+    res, stack = [], []   # stack of (opener, start, visible, slot)
+    quote = None
+    for i, ch in enumerate(text):
+        if quote:
+            if ch == quote:
+                quote = None
+            continue
+        visible = all(o == kind[0] for o, _, _, _ in stack)
+        if ch in '"\'':
+            quote = ch
+            continue
+        if ch in CLOSER:
+            slot = None
+            if ch == kind[0] and visible:
+                slot = len(res)
+                res.append(None)
+            stack.append((ch, i, visible, slot))
+        elif stack and ch == CLOSER[stack[-1][0]]:
+            o, b, vis, slot = stack.pop()
+            if slot is not None:
+                res[slot] = text[b:i + 1]
+    return res
+
+
 def balanced(text: str) -> bool:
     stack, quote = [], None
     for ch in text.replace('->', '  '):
@@ -164,10 +191,39 @@ def special_class(atom: str) -> str:
     return 'plain'
 
 
+# Texts outside the quantifier (a '<' comparison, an escaped quote, an unclosed group or string): their results are not
+# judged, but a helper that has seen them must still treat every balanced fragment as before (the helpers are called
+# with template output of all kinds within one process). Every second chunk of fragments is judged after these calls.
+POISONS = ['i < n, i + 1', '"5\\" disk", x', 'f(a, (b', 'g[x', '{k: "v', "h('q, r", 'a > b, c < d', 'T<A, f(x', ')x(', 'p, "q\\\\", r']
+
+
+def poison():
+    from rogw.tranp.view.helper.block import BlockParser
+    from rogw.tranp.view.helper.decorator import DecoratorHelper
+    from rogw.tranp.implements.cpp.view.cpp_view_helper import CppViewHelper
+    calls = 0
+    for text in POISONS:
+        fs = [lambda d=d: BlockParser.break_separator(text, d) for d in DELIMS]
+        fs += [lambda k=k: BlockParser.break_last_block(text, k) for k in KINDS]
+        fs += [lambda k=k: BlockParser.parse_bracket(text, k) for k in KINDS]
+        fs += [lambda k=k: BlockParser.parse_pair(text, k) for k in KINDS]
+        fs += [lambda: (lambda h: (h.path, h.args, h.join_args))(DecoratorHelper(text)), lambda: CppViewHelper.Param.parse(text)]
+        for f in fs:
+            calls += 1
+            try:
+                f()
+            except Exception:  # noqa
+                pass
+    return calls
+
+
 def worker(task):
     """Evaluate all laws on one (shape-index range). Returns (stats, violations)."""
     from rogw.tranp.view.helper.block import BlockParser
-    shapes, specials, max_special, kinds_full, pair_specials = task
+    shapes, specials, max_special, kinds_full, pair_specials = task[:5]
+    poisoned = len(task) > 5 and task[5]
+    if poisoned:
+        poison()
     viol = []
     evals = 0
     nontrivial = set()
@@ -284,6 +340,24 @@ def worker(task):
                                 viol.append((['parse_bracket', 'first-block', 'atoms=' + ','.join(classes or ['plain'])],
                                              f'parse_bracket({text!r}, {k!r})[0] = {first!r}, expected {want!r}',
                                              {'law': 'parse_bracket', 'text': text, 'brackets': k, 'expected': want}))
+                            # every listed block is a group of the scanned kind (groups of other kinds and strings are
+                            # opaque): compared with an independent scan, for the spaced and the unspaced rendering
+                            for seps in (', ', ','):
+                                ai3, ki3 = iter(atoms), iter(kinds)
+                                t2 = render(shape, ai3, ki3, seps, seps)
+                                evals += 1
+                                try:
+                                    got_all = BlockParser.parse_bracket(t2, k)
+                                except Exception as e:  # noqa
+                                    got_all = f'raises:{type(e).__name__}'
+                                want_all = ref_blocks(t2, k)
+                                outcomes.add(('blocks', len(want_all), got_all == want_all))
+                                if got_all != want_all:
+                                    viol.append((['parse_bracket', 'blocks', 'atoms=' + ','.join(classes or ['plain'])],
+                                                 f'parse_bracket({t2!r}, {k!r}) = {got_all!r}, expected {want_all!r}',
+                                                 {'law': 'parse_bracket_all', 'text': t2, 'brackets': k, 'expected': want_all}))
+    if poisoned:
+        viol = [(sig + ['history=after-unbalanced-texts'], what + ' (after calls with the texts POISONS)', dict(rep, after=True)) for sig, what, rep in viol]
     return evals, len(nontrivial), sorted(map(str, outcomes)), viol, selfcheck_fail[:3]
 
 
@@ -425,7 +499,7 @@ def deco_param_cases(ctx, viol, stats):
 
 def run(ctx):
     n_max = 5 if ctx.quick else 6
-    depth = 2 if ctx.quick else 3
+    depth = 3
     specials = SPECIAL_Q if ctx.quick else SPECIAL_T
     max_special = 1 if ctx.quick else 2
     shapes = []
@@ -433,7 +507,7 @@ def run(ctx):
         shapes.extend(frags(n, depth))
     ctx.log(f'{len(shapes)} shapes with size <= {n_max} (atoms + groups), depth <= {depth}')
     chunks = pool.chunked(shapes, max(1, len(shapes) // (ctx.workers * 8) + 1))
-    tasks = [(c, specials, max_special, not ctx.quick, SPECIAL_Q) for c in chunks]
+    tasks = [(c, specials, max_special, not ctx.quick, SPECIAL_Q, i % 2 == 1) for i, c in enumerate(chunks)]
     results = pool.pmap(worker, tasks, workers=ctx.workers, rotate=ctx.seed)
     evals = nontriv = 0
     outcomes = set()
@@ -451,6 +525,12 @@ def run(ctx):
     viol = []
     n2 = deco_param_cases(ctx, viol, stats)
     ctx.merge(viol)
+    # the same recomposition cases once more in this process after the helpers have seen the unbalanced texts
+    seen = {(tuple(sig), what) for sig, what, _ in viol}
+    n_poison = poison()
+    viol2 = []
+    n2 += deco_param_cases(ctx, viol2, {})
+    ctx.merge([(sig + ['history=after-unbalanced-texts'], what + ' (after calls with the texts POISONS)', dict(rep, after=True)) for sig, what, rep in viol2 if (tuple(sig), what) not in seen])
     # samples
     samples = []
     for shape in [shapes[0], shapes[len(shapes) // 2], shapes[-2]]:
@@ -464,6 +544,7 @@ def run(ctx):
         'rule': f'all fragment shapes with size (atoms + groups) <= {n_max} and group nesting <= {depth} (elements: atom | atom+group | group; empty groups included) x all bracket-kind assignments x delimiters {DELIMS} (spaced and unspaced) x atom assignments with one special atom from {specials} + (if bound 2) pairs from {SPECIAL_Q}; non-trivial = more than one top-level piece or at least one group; plus decorator/parameter recomposition cases',
         'samples': samples,
         'shapes': len(shapes),
+        'history': f'every second chunk of shapes and a second pass of the recomposition cases are judged after {n_poison} helper calls on {len(POISONS)} texts outside the quantifier (unclosed groups and strings, comparisons, escaped quotes)',
         'distinct_outcomes': sorted(outcomes)[:40],
         'exhaustive': True,
         'bound': f'atoms+groups<={n_max}, depth<={depth}, specials<={max_special}',
@@ -474,6 +555,8 @@ def run(ctx):
 def replay(ctx, data):
     from rogw.tranp.view.helper.block import BlockParser
     law = data['law']
+    if data.get('after'):
+        poison()
     if law == 'break_separator':
         got = BlockParser.break_separator(data['text'], data['delim'])
         if got != data['expected']:
